@@ -66,6 +66,17 @@ def oracle_legal(req, reply):
     stage = req["gen"].get("stage") or reply["stage"]
     ops = [c for c in req["ops"]]
     rows = rows_of(reply)
+    # the change named for each row by the written notation and the call definitions (read by the harness's own
+    # reference, not by Wheatley's parser): every place it names is to be made
+    spec, named = req["gen"], None
+    ref = (gens.denote([(p, c) for p, c in spec["_ast"]]), spec["_bob_ref"], spec["_single_ref"]) if "_ast" in spec \
+        else gens.special_reference(spec["type"], spec["stage"]) if spec.get("stage") else None
+    if ref is not None and ref[0]:
+        named = []
+        _, ok = gens.ref_call_rows(spec["stage"], ref[0], spec.get("start_index") or 0, reply["start_row"], ref[1], ref[2],
+                                   req["ops"], trace=named)
+        if not ok:
+            named = None
     ri = 0
     for c in ops:
         if c == "r":
@@ -80,6 +91,11 @@ def oracle_legal(req, reply):
                     return f"row {ri-1}: bell {b} jumps ({prev} -> {r})"
             if r[stage:] != prev[stage:]:
                 return f"row {ri-1}: cover bells moved ({prev} -> {r})"
+            if named is not None and ri - 1 < len(named) and gens.ref_well_formed(spec["stage"], named[ri - 1]):
+                for p in named[ri - 1]:
+                    if 1 <= p <= spec["stage"] and r[p - 1] != prev[p - 1]:
+                        return (f"row {ri-1}: place {p} is named in the notation for this change ({named[ri - 1]}) but "
+                                f"is not made ({prev} -> {r})")
             prev = r
     return None
 
